@@ -8,7 +8,21 @@ import (
 	"verif/sim/internal/world"
 )
 
-const modPrefix = "example.com/"
+// PkgImportPath is the import path of package i.
+func (m *Module) PkgImportPath(i int) string {
+	if i < m.Ext {
+		return "dep.example/" + m.Pkgs[i].Path
+	}
+	return "example.com/" + m.Pkgs[i].Path
+}
+
+// SimrtPath is the import path of the run-time library.
+func (m *Module) SimrtPath() string {
+	if m.Ext > 0 {
+		return "dep.example/simrt"
+	}
+	return "example.com/simrt"
+}
 
 // qual renders the name of type t as seen from package from, recording the import.
 func (m *Module) qual(from int, t *Type, imports map[int]bool) string {
@@ -201,7 +215,7 @@ func (m *Module) importBlock(from int, imports map[int]bool, extra []string, ano
 	}
 	sort.Ints(idx)
 	for _, i := range idx {
-		lines = append(lines, fmt.Sprintf("\t%s %q", m.alias(from, i), modPrefix+m.Pkgs[i].Path))
+		lines = append(lines, fmt.Sprintf("\t%s %q", m.alias(from, i), m.PkgImportPath(i)))
 	}
 	for _, a := range anon {
 		lines = append(lines, fmt.Sprintf("\t_ %q", a))
@@ -212,19 +226,31 @@ func (m *Module) importBlock(from int, imports map[int]bool, extra []string, ano
 	return "import (\n" + strings.Join(lines, "\n") + "\n)\n\n"
 }
 
-// Files renders the whole module (workload packages, the simrt runtime and, if
-// withDriver, the driver main package).
-func (m *Module) Files(withDriver bool) []world.File {
-	var files []world.File
+// Files renders the whole module: the files of the main module example.com
+// (workload packages, and the driver main package if withDriver) and the files
+// of the dependency module dep.example (paths relative to their module roots).
+func (m *Module) Files(withDriver bool) (app, ext []world.File) {
 	for _, p := range m.Pkgs {
-		files = append(files, m.renderTypes(p))
-		files = append(files, m.renderInjectors(p)...)
+		fs := append([]world.File{m.renderTypes(p)}, m.renderInjectors(p)...)
+		if p.Idx < m.Ext {
+			ext = append(ext, fs...)
+		} else {
+			app = append(app, fs...)
+		}
 	}
-	files = append(files, world.File{Path: "simrt/simrt.go", Data: []byte(simrtSrc)})
+	rt := world.File{Path: "simrt/simrt.go", Data: []byte(simrtSrc)}
+	if !withDriver {
+		rt.Data = []byte(simrtLiteSrc)
+	}
+	if m.Ext > 0 {
+		ext = append(ext, rt)
+	} else {
+		app = append(app, rt)
+	}
 	if withDriver {
-		files = append(files, m.renderDriver())
+		app = append(app, m.renderDriver())
 	}
-	return files
+	return app, ext
 }
 
 func (m *Module) renderTypes(p *Pkg) world.File {
@@ -364,7 +390,7 @@ func (m *Module) renderTypes(p *Pkg) world.File {
 			fmt.Fprintf(&b, "var %s = wire.NewSet(\n\t%s,\n)\n\n", s.Name, strings.Join(items, ",\n\t"))
 		}
 	}
-	extra := []string{modPrefix + "simrt"}
+	extra := []string{m.SimrtPath()}
 	if needWire {
 		extra = append(extra, "github.com/google/wire")
 	}
@@ -489,7 +515,7 @@ func (m *Module) renderDriver() world.File {
 		body.WriteString("\t})\n")
 	}
 	b.WriteString("package main\n\n")
-	b.WriteString(m.importBlock(-1, imports, []string{modPrefix + "simrt"}, nil))
+	b.WriteString(m.importBlock(-1, imports, []string{m.SimrtPath()}, nil))
 	b.WriteString("func main() {\n")
 	b.WriteString(body.String())
 	b.WriteString("\tsimrt.Main()\n}\n")
